@@ -91,6 +91,17 @@ pub fn allowed_int(sorted: &[i128], q: f64, s: Strat) -> Vec<(i128, i128)> {
     let n = sorted.len();
     let mut out: Vec<(i128, i128)> = Vec::new();
     for r in readings(q, n) {
+        out.extend(allowed_int_r(sorted, &r, s));
+    }
+    out.sort();
+    out.dedup();
+    out
+}
+
+/// Admissible integer results under ONE reading of the position.
+pub fn allowed_int_r(sorted: &[i128], r: &Reading, s: Strat) -> Vec<(i128, i128)> {
+    let mut out: Vec<(i128, i128)> = Vec::new();
+    {
         let (l, h) = (sorted[r.lower], sorted[r.higher]);
         match s {
             Strat::Lower => out.push((l, l)),
@@ -125,8 +136,6 @@ pub fn allowed_int(sorted: &[i128], q: f64, s: Strat) -> Vec<(i128, i128)> {
             }
         }
     }
-    out.sort();
-    out.dedup();
     out
 }
 
@@ -134,8 +143,17 @@ pub fn allowed_int(sorted: &[i128], q: f64, s: Strat) -> Vec<(i128, i128)> {
 pub fn allowed_f64(sorted: &[f64], q: f64, s: Strat) -> Vec<(f64, f64)> {
     let n = sorted.len();
     let mut out: Vec<(f64, f64)> = Vec::new();
-    let u = f64::EPSILON / 2.0;
     for r in readings(q, n) {
+        out.extend(allowed_f64_r(sorted, &r, s));
+    }
+    out
+}
+
+/// Admissible float results under ONE reading of the position.
+pub fn allowed_f64_r(sorted: &[f64], r: &Reading, s: Strat) -> Vec<(f64, f64)> {
+    let mut out: Vec<(f64, f64)> = Vec::new();
+    let u = f64::EPSILON / 2.0;
+    {
         let (l, h) = (sorted[r.lower], sorted[r.higher]);
         let tol = 4.0 * u * (l.abs() + h.abs()) + f64::MIN_POSITIVE;
         match s {
